@@ -215,12 +215,12 @@ def check_pop_push_guard(ctx, rep, funcs, rule='R-PDAFORM.guard'):
             # same expression, short-circuit: pda_can_pop_push(..) and pda_pop_push(..) == ...
             if not ok:
                 node = fx.cfg.node[nid]
+                from .misc import _local_guards
                 for r in fx._own_roots(node):
-                    for b in ast.walk(r):
-                        if isinstance(b, ast.BoolOp) and isinstance(b.op, ast.And):
-                            for i, v in enumerate(b.values):
-                                if any(x is c for x in ast.walk(v)) and any(u(w) == want for w in b.values[:i]):
-                                    ok = True
+                    for e, pol in _local_guards(r, c):
+                        conj = e.values if (pol and isinstance(e, ast.BoolOp) and isinstance(e.op, ast.And)) else [e]
+                        if pol and any(u(w) == want for w in conj):
+                            ok = True
             if ok:
                 rep.holds(rule, f, c, 'dominated by pda_can_pop_push on the same arguments')
             else:
@@ -794,3 +794,74 @@ def check_push_pop_model(ctx, rep, f, rule='R-MODEL.M5'):
     else:
         rep.holds(rule, f, 'def ' + f.name, 'on the finite model (one transition of each kind, two epsilon symbols) the result is in push/pop form, keeps the push / pop transitions, and simulates every other transition by two steps through its own new intermediate state')
     return True
+
+
+def check_empty_stack_model(ctx, rep, f, rule='R-PDAFORM.drain'):
+    """pda_to_accept_on_empty_stack_in_place, decided on a finite model with the analyser's evaluator: a PDA with two
+    accepting states, two stack symbols and the epsilon symbols '' / '_' (one of its states is called q_initial1, one of its
+    stack symbols is the first candidate of the bottom marker).  Required of the result, up to the names chosen: one new
+    stack symbol (the bottom marker) and three new states; the new initial state pushes the marker and enters the old
+    initial state; every old accepting state and the drain state pop every OLD stack symbol into the drain state and pop
+    the marker into the new accepting state, which is the only accepting state; the old transitions are kept and nothing
+    else is added.  The construction is uniform in the states, the stack symbols and the accepting states, so two of each
+    cover it.  Returns True when decided."""
+    from ..miniexec import Interp, Obj, Raised
+    bad = None
+    try:
+        for eps in ('', '_'):
+            old = {('p', 'a', eps): {('q', 'X')}, ('q', 'b', 'X'): {('r', eps)}, ('q', 'a', eps): {('q', '$')}}
+            Q0, G0, F0 = {'p', 'q', 'r', 'q_initial1'}, {'X', '$'}, {'q', 'r'}
+            delta = collections_defaultdict_set({k: set(v) for k, v in old.items()})
+            P = Obj('PDA', Q=set(Q0), Sigma={'a', 'b'}, Gamma=set(G0), delta=delta, q0='p', F=set(F0), epsilon=eps)
+            try:
+                Interp(ctx).call(f, [P])
+            except Raised as ex:
+                bad = 'the construction raises {}'.format(ex.name)
+                break
+            Q1, G1, F1, d1, q01 = P._f['Q'], P._f['Gamma'], P._f['F'], P._f['delta'], P._f['q0']
+            newQ, newG = set(Q1) - Q0, set(G1) - G0
+            trans = {(p, a, u0, q, v) for (p, a, u0), tg in d1.items() for (q, v) in tg}
+            oldt = {(p, a, u0, q, v) for (p, a, u0), tg in old.items() for (q, v) in tg}
+            if len(newG) != 1 or not G0 <= set(G1):
+                bad = 'the stack alphabet of the result is {} (one new bottom marker is expected next to the old symbols {})'.format(sorted(G1), sorted(G0))
+                break
+            b = next(iter(newG))
+            if len(newQ) != 3 or not Q0 <= set(Q1):
+                bad = 'the result has the new states {} (a new initial, a drain and a new accepting state are expected)'.format(sorted(newQ))
+                break
+            if q01 not in newQ:
+                bad = 'the initial state of the result is the old state {}'.format(q01)
+                break
+            if len(F1) != 1 or next(iter(F1)) not in newQ or next(iter(F1)) == q01:
+                bad = 'the accepting states of the result are {} (exactly one new accepting state is expected)'.format(sorted(F1))
+                break
+            qa = next(iter(F1))
+            qd = next(iter(newQ - {q01, qa}))
+            want = set(oldt) | {(q01, eps, eps, 'p', b)}
+            for q in F0 | {qd}:
+                for X in G0:
+                    want.add((q, eps, X, qd, eps))
+                want.add((q, eps, b, qa, eps))
+            if trans != want:
+                missing, extra = sorted(want - trans), sorted(trans - want)
+                show = lambda t: '({}, {}, {}) -> ({}, {})'.format(t[0], t[1] or 'eps', t[2] or 'eps', t[3], t[4] or 'eps')
+                if missing:
+                    bad = 'the transition {} is missing from the result: {}'.format(show(missing[0]), 'symbols left on the stack are not all popped, so words accepted with a non-empty stack are lost' if missing[0][3] == qd or missing[0][0] == qd else 'the empty-stack form is incomplete')
+                else:
+                    bad = 'the result contains the unexpected transition {}'.format(show(extra[0]))
+                break
+    except Unsupported as e:
+        rep.note('{}: finite-model evaluation not applicable ({})'.format(f.short, e))
+        return False
+    if bad:
+        rep.violates(rule, f, 'def ' + f.name, bad)
+    else:
+        rep.holds(rule, f, 'def ' + f.name, 'on the finite model the result has a new bottom marker, a new initial state that pushes it, a drain state and the old accepting states popping every old symbol into the drain state and the marker into the single new accepting state; nothing else is added')
+    return True
+
+
+def collections_defaultdict_set(d):
+    import collections
+    out = collections.defaultdict(set)
+    out.update(d)
+    return out
